@@ -14,6 +14,8 @@ import (
 	"bebopverif/internal/genfacts"
 	"bebopverif/internal/load"
 	"bebopverif/internal/wire"
+
+	gocfg "golang.org/x/tools/go/cfg"
 )
 
 // goTypeOfStem is the Go type each iohelp stem must move, per the wire spec.
@@ -38,6 +40,8 @@ type ioFn struct {
 	fd   *ast.FuncDecl
 	name string
 	ren  map[string]string
+	clos []*ioFn
+	arrLen int
 }
 
 func ioFunc(c *core.Ctx, p *load.Prog, name string) *ioFn {
@@ -81,9 +85,10 @@ func (f *ioFn) renames() map[string]string {
 				want = "ew"
 			}
 		case t == "[]byte" && !recv:
-			want = "b"
-			if strings.Contains(f.name, "Bytes") {
-				want = "buf"
+			// the methods of the wrappers call it b, every plain helper buf
+			want = "buf"
+			if f.fd.Recv != nil {
+				want = "b"
 			}
 		}
 		if want != "" && want != id.Name {
@@ -119,7 +124,9 @@ func (f *ioFn) renames() map[string]string {
 func (f *ioFn) canon(e ast.Expr) string { return f.renameWords(wire.Canon(e)) }
 
 // text is the whitespace-normalised source of the body under the same renaming.
-func (f *ioFn) text() string { return f.renameWords(strings.Join(strings.Fields(srcOf(f.p, f.fd.Body)), " ")) }
+func (f *ioFn) text() string {
+	return f.renameWords(strings.Join(strings.Fields(srcOf(f.p, f.fd.Body)), " "))
+}
 
 func (f *ioFn) renameWords(s string) string {
 	ren := f.renames()
@@ -288,10 +295,13 @@ func iohelpLayoutRules(c *core.Ctx, p *load.Prog, rWidth, rGUID, rBuild string) 
 			n++
 			ok := true
 			idx := 0
-			ast.Inspect(f.fd.Body, func(nd ast.Node) bool {
+			f.inspectAll(func(g *ioFn, nd ast.Node) bool {
 				if ix, is := nd.(*ast.IndexExpr); is {
+					if t := g.info.TypeOf(ix.X); t == nil || t.String() != "[]byte" {
+						return true
+					}
 					idx++
-					if tv := f.info.Types[ix.Index]; tv.Value == nil || tv.Value.ExactString() != "0" {
+					if tv := g.info.Types[ix.Index]; tv.Value == nil || tv.Value.ExactString() != "0" {
 						ok = false
 					}
 				}
@@ -300,11 +310,11 @@ func iohelpLayoutRules(c *core.Ctx, p *load.Prog, rWidth, rGUID, rBuild string) 
 			c.Check(rWidth, f.name+" touches only byte 0", f.pos(), ok && idx >= 1, "a one-byte wire type must read/write index 0 only")
 			if stem == "Bool" && dir == "Read" {
 				okb := false
-				ast.Inspect(f.fd.Body, func(nd ast.Node) bool {
+				f.inspectAll(func(g *ioFn, nd ast.Node) bool {
 					if be, is := nd.(*ast.BinaryExpr); is {
 						if ix, isIx := ast.Unparen(be.X).(*ast.IndexExpr); isIx {
-							i0, ok0 := constInt(f.info, ix.Index)
-							v, okv := constInt(f.info, be.Y)
+							i0, ok0 := constInt(g.info, ix.Index)
+							v, okv := constInt(g.info, be.Y)
 							if ok0 && okv && i0 == 0 && ((be.Op == token.EQL && v == 1) || (be.Op == token.NEQ && v == 0)) {
 								okb = true
 							}
@@ -315,8 +325,8 @@ func iohelpLayoutRules(c *core.Ctx, p *load.Prog, rWidth, rGUID, rBuild string) 
 				c.Check(rWidth, f.name+" decodes 1 as true", f.pos(), okb, "bool decode must test byte 0 against 1 (or non-zero)")
 			}
 			if stem == "Bool" && dir == "Write" {
-				okw := boolWriteOK(f)
-				c.Check(rWidth, f.name+" encodes true as 1 and false as 0", f.pos(), okw, "the if/else of WriteBoolBytes must store 1 on the true arm and 0 on the false arm")
+				okw := boolToByteOK(f)
+				c.Check(rWidth, f.name+" encodes true as 1 and false as 0", f.pos(), okw, "WriteBoolBytes (or the helper it calls) must produce 1 on the true arm and 0 on the false arm")
 			}
 		}
 	}
@@ -353,9 +363,14 @@ func iohelpLayoutRules(c *core.Ctx, p *load.Prog, rWidth, rGUID, rBuild string) 
 	// date: ticks * 100, tick 0 <-> zero time
 	if f := ioFunc(c, p, "ReadDateBytes"); f != nil {
 		n++
-		mul := dateMultiplier(f)
+		mul := 0
+		for _, g := range f.closure() {
+			if m := dateMultiplier(g); m != 0 && mul == 0 {
+				mul = m
+			}
+		}
 		reads64, unix0, utc, zeroTest, zeroTime := false, false, false, false, false
-		ast.Inspect(f.fd.Body, func(nd ast.Node) bool {
+		f.inspectAll(func(_ *ioFn, nd ast.Node) bool {
 			switch x := nd.(type) {
 			case *ast.CallExpr:
 				fn := wire.Canon(x.Fun)
@@ -371,7 +386,7 @@ func iohelpLayoutRules(c *core.Ctx, p *load.Prog, rWidth, rGUID, rBuild string) 
 					utc = true
 				}
 			case *ast.BinaryExpr:
-				if v, ok := constInt(f.info, x.Y); ok && v == 0 && x.Op == token.EQL {
+				if v, ok := constInt(f.info, x.Y); ok && v == 0 && (x.Op == token.EQL || x.Op == token.NEQ) {
 					zeroTest = true
 				}
 			case *ast.CompositeLit:
@@ -392,7 +407,24 @@ func iohelpLayoutRules(c *core.Ctx, p *load.Prog, rWidth, rGUID, rBuild string) 
 				okd = true
 			}
 		}
-		c.Check(rWidth, "ReadDate = ReadDateBytes(scratch)", f.pos(), okd, "no call ReadDateBytes(<reader>.buffer)")
+		// or: both readers apply one conversion to the int64 they read
+		if !okd {
+			if fb := ioFunc(c, p, "ReadDateBytes"); fb != nil {
+				conv := func(g *ioFn, inner string) string {
+					for _, call := range g.calls() {
+						if len(call.Args) == 1 {
+							if in, ok := ast.Unparen(call.Args[0]).(*ast.CallExpr); ok && wire.Canon(in.Fun) == inner {
+								return wire.Canon(call.Fun)
+							}
+						}
+					}
+					return ""
+				}
+				a, b := conv(f, "ReadInt64"), conv(fb, "ReadInt64Bytes")
+				okd = a != "" && a == b
+			}
+		}
+		c.Check(rWidth, "ReadDate = ReadDateBytes(scratch)", f.pos(), okd, "ReadDate neither decodes the scratch with ReadDateBytes nor applies the conversion ReadDateBytes applies to the int64 it reads")
 	}
 	// GUID tables
 	guidTables(c, p, rGUID)
@@ -502,7 +534,7 @@ func guidTables(c *core.Ctx, p *load.Prog, rule string) {
 	lit := func(f *ioFn) ([]int, bool) {
 		var out []int
 		ok := false
-		ast.Inspect(f.fd.Body, func(n ast.Node) bool {
+		f.inspectAll(func(_ *ioFn, n ast.Node) bool {
 			cl, is := n.(*ast.CompositeLit)
 			if !is || len(cl.Elts) != 16 {
 				return true
@@ -580,6 +612,20 @@ func guidTables(c *core.Ctx, p *load.Prog, rule string) {
 			}
 			return true
 		})
+		if cnt == 0 {
+			// the permuted array is built (by a helper) and copied over the first 16 bytes
+			if lt, okl := lit(f); okl {
+				for _, call := range f.calls() {
+					if wire.Canon(call.Fun) == "copy" && len(call.Args) == 2 {
+						if _, isSl := ast.Unparen(call.Args[1]).(*ast.SliceExpr); isSl && strings.HasPrefix(f.canon(call.Args[0]), "buf") {
+							if arr, isArr := f.info.TypeOf(ast.Unparen(call.Args[1]).(*ast.SliceExpr).X).Underlying().(*types.Array); isArr && arr.Len() == 16 {
+								t, cnt = lt, 16
+							}
+						}
+					}
+				}
+			}
+		}
 		c.Check(rule, "WriteGUIDBytes permutation == spec", f.pos(), cnt == 16 && equalInts(t, spec), fmt.Sprintf("table %v (%d stores), wire format %v", t, cnt, spec))
 		pr := f.probes()
 		c.Check(rule, "WriteGUIDBytes bounds probe covers 16 bytes", f.pos(), len(pr) == 1 && pr[0] >= 15, fmt.Sprintf("probes %v", pr))
@@ -587,10 +633,17 @@ func guidTables(c *core.Ctx, p *load.Prog, rule string) {
 	if f := ioFunc(c, p, "ReadGUID"); f != nil {
 		buf, size, read := f.freshRead()
 		sz, _ := constInt(f.info, size)
+		if f.arrLen > 0 {
+			sz = f.arrLen
+		}
 		decoded := false
 		for _, call := range f.calls() {
 			if wire.Canon(call.Fun) == "ReadGUIDBytes" && len(call.Args) == 1 {
-				if id, ok := ast.Unparen(call.Args[0]).(*ast.Ident); ok && buf != nil && f.info.ObjectOf(id) == buf {
+				arg := ast.Unparen(call.Args[0])
+				if se, ok := arg.(*ast.SliceExpr); ok && se.Low == nil && se.High == nil {
+					arg = ast.Unparen(se.X)
+				}
+				if id, ok := arg.(*ast.Ident); ok && buf != nil && f.info.ObjectOf(id) == buf {
 					decoded = true
 				}
 			}
@@ -648,20 +701,14 @@ func iohelpStreamWidths(c *core.Ctx, p *load.Prog, rule string) {
 					got = sliceWidth(f, call.Args[1], "r.buffer", scratch)
 				}
 			}
-			// forwarding to the reader of another type of the same width is the same read
-			if got == -1 && len(f.fd.Body.List) == 1 {
-				if r, ok := f.fd.Body.List[0].(*ast.ReturnStmt); ok && len(r.Results) == 1 {
-					inner, _ := ast.Unparen(r.Results[0]).(*ast.CallExpr)
-					if inner != nil {
-						if tv, isType := f.info.Types[inner.Fun]; isType && tv.IsType() && len(inner.Args) == 1 {
-							inner, _ = ast.Unparen(inner.Args[0]).(*ast.CallExpr)
-						}
-					}
-					if inner != nil && len(inner.Args) == 1 && f.canon(inner.Args[0]) == "r" {
-						fn := f.canon(inner.Fun)
-						if strings.HasPrefix(fn, "Read") && stemWidth[strings.TrimPrefix(fn, "Read")] == w && fn != "Read"+stem {
-							continue // the callee carries its own obligations
-						}
+			// forwarding: the function does no read of its own and calls exactly one
+			// sibling stream reader of the same width with its own reader (possibly
+			// under a conversion or a pure helper): that read is this read
+			if got == -1 {
+				sib := f.siblingStreamCalls("Read", "r")
+				if len(sib) == 1 && sib[0] != stem && stemWidth[sib[0]] == w {
+					if _, known := stemWidth[sib[0]]; known {
+						continue // the callee carries its own obligations
 					}
 				}
 			}
@@ -693,6 +740,14 @@ func iohelpStreamWidths(c *core.Ctx, p *load.Prog, rule string) {
 					}
 				}
 			}
+			if got == -1 {
+				sib := f.siblingStreamCalls("Write", "w")
+				if len(sib) == 1 && sib[0] != stem {
+					if sw, known := stemWidth[sib[0]]; known && sw == w {
+						continue // forwards to the writer of a type of the same width
+					}
+				}
+			}
 			c.Check(rule, "Write"+stem+" writes exactly its width", f.pos(), got == w, fmt.Sprintf("writes %d bytes (literal=%v); the wire type is %d bytes", got, lit, w))
 			if !lit {
 				oke := false
@@ -720,8 +775,22 @@ func iohelpStreamWidths(c *core.Ctx, p *load.Prog, rule string) {
 			}
 			return true
 		})
-		c.Check(rule, "ReadString reads a u32 count then exactly that many bytes", f.pos(), counted && read && returned,
-			fmt.Sprintf("buffer sized by ReadUint32: %v, filled through the ErrorReader: %v, returned as the string: %v", counted, read, returned))
+		// no way out between the count and the read: the bytes the count announces are always taken
+		var readPos token.Pos
+		for _, call := range f.calls() {
+			if f.canon(call.Fun) == "r.Read" {
+				readPos = call.Pos()
+			}
+		}
+		early := false
+		ast.Inspect(f.fd.Body, func(nd ast.Node) bool {
+			if r, ok := nd.(*ast.ReturnStmt); ok && r.Pos() < readPos {
+				early = true
+			}
+			return true
+		})
+		c.Check(rule, "ReadString reads a u32 count then exactly that many bytes", f.pos(), counted && read && returned && !early,
+			fmt.Sprintf("buffer sized by ReadUint32: %v, filled through the ErrorReader: %v, returned as the string: %v, return before the read: %v", counted, read, returned, early))
 	}
 	if f := ioFunc(c, p, "ErrorReader.Read"); f != nil {
 		n++
@@ -760,6 +829,23 @@ func iohelpCheckedStrings(c *core.Ctx, p *load.Prog, rule string) {
 		if f == nil {
 			continue
 		}
+		// the guards live where the slice is taken: in the function itself or in
+		// the helper it hands its buffer to
+		top := f
+		for _, g := range f.closure() {
+			has := false
+			ast.Inspect(g.fd.Body, func(n ast.Node) bool {
+				if se, ok := n.(*ast.SliceExpr); ok && g.canonBuf(se.X) == "buf" && se.Low != nil {
+					has = true
+				}
+				return true
+			})
+			if has {
+				f = g
+				break
+			}
+		}
+		_ = top
 		// straight-line guards: `if cond { return ... }` at top level
 		var guards []ast.Expr
 		sliceSeen := false
@@ -821,112 +907,14 @@ func endsInReturn(b *ast.BlockStmt) bool {
 }
 
 // readClearsOnFailure: ErrorReader.Read zeroes its destination on every
-// path where the underlying read failed.
+// path that returns a failure (path analysis, see analyseLatch).
 func readClearsOnFailure(c *core.Ctx, p *load.Prog) bool {
 	f := ioFunc(c, p, "ErrorReader.Read")
 	if f == nil {
 		return false
 	}
-	cleared := false
-	// a failure return taken before the underlying read (e.g. a shortcut on an
-	// already latched error) leaves the destination untouched as well
-	isClear := func(s ast.Stmt) bool {
-		if es, ok := s.(*ast.ExprStmt); ok {
-			if call, ok := es.X.(*ast.CallExpr); ok && f.canon(call.Fun) == "clear" && len(call.Args) == 1 && f.canon(call.Args[0]) == "b" {
-				return true
-			}
-		}
-		return false
-	}
-	earlyBad := false
-	var scanBlock func(list []ast.Stmt, clearedAbove bool)
-	scanBlock = func(list []ast.Stmt, clearedAbove bool) {
-		cl := clearedAbove
-		for _, s := range list {
-			if isClear(s) {
-				cl = true
-			}
-			switch x := s.(type) {
-			case *ast.ReturnStmt:
-				if n := len(x.Results); n == 2 && f.canon(x.Results[n-1]) != "nil" && !cl {
-					earlyBad = true
-				}
-			case *ast.IfStmt:
-				scanBlock(x.Body.List, cl)
-				if eb, ok := x.Else.(*ast.BlockStmt); ok {
-					scanBlock(eb.List, cl)
-				} else if x.Else != nil {
-					scanBlock([]ast.Stmt{x.Else}, cl)
-				}
-			case *ast.BlockStmt:
-				scanBlock(x.List, cl)
-			case *ast.SwitchStmt:
-				for _, cc := range x.Body.List {
-					scanBlock(cc.(*ast.CaseClause).Body, cl)
-				}
-			}
-		}
-	}
-	for i, s := range f.fd.Body.List {
-		touches := false
-		ast.Inspect(s, func(n ast.Node) bool {
-			if sel, ok := n.(*ast.SelectorExpr); ok && f.canon(sel) == "er.Reader" {
-				touches = true
-			}
-			return true
-		})
-		if touches {
-			scanBlock(f.fd.Body.List[:i], false)
-			break
-		}
-	}
-	if earlyBad {
-		return false
-	}
-	ast.Inspect(f.fd.Body, func(n ast.Node) bool {
-		ifs, ok := n.(*ast.IfStmt)
-		if !ok {
-			return true
-		}
-		if x, ok := nilTestExpr(ifs.Cond); !ok || x != "err" {
-			return true
-		}
-		left := false
-		for _, direct := range ifs.Body.List {
-			// a way out of the arm before the clearing makes it conditional
-			if !cleared && containsReturn(direct) {
-				left = true
-			}
-			if left {
-				break
-			}
-			m := ast.Node(direct)
-			if es, ok := direct.(*ast.ExprStmt); ok {
-				m = es.X
-			}
-			switch y := m.(type) {
-			case *ast.CallExpr:
-				if f.canon(y.Fun) == "clear" && len(y.Args) == 1 && f.canon(y.Args[0]) == "b" {
-					cleared = true
-				}
-			case *ast.RangeStmt:
-				if strings.HasPrefix(f.canon(y.X), "b") {
-					ast.Inspect(y.Body, func(k ast.Node) bool {
-						if as, ok := k.(*ast.AssignStmt); ok && len(as.Rhs) == 1 {
-							if tv := f.info.Types[as.Rhs[0]]; tv.Value != nil && tv.Value.ExactString() == "0" {
-								if ix, ok := as.Lhs[0].(*ast.IndexExpr); ok && f.canon(ix.X) == "b" {
-									cleared = true
-								}
-							}
-						}
-						return true
-					})
-				}
-			}
-		}
-		return true
-	})
-	return cleared
+	r := analyseLatch(f, "er.Reader", "er.Err")
+	return r.found && r.clearedOnFailure
 }
 
 func nilTestExpr(e ast.Expr) (string, bool) {
@@ -1157,7 +1145,7 @@ func iohelpNoPanic(c *core.Ctx, p *load.Prog, rule string) {
 	}
 	c.Check(rule, "iohelp has no explicit panic outside Must* helpers", "iohelp/iohelp.go", true, "")
 	c.Count("iohelp_functions_scanned", n)
-	c.Floor("iohelp_functions_scanned", 50)
+	c.Floor("iohelp_functions_scanned", 30)
 }
 
 // iohelpLatchRules (C08 R1, R2, R5, R6; C05/R2)
@@ -1171,68 +1159,14 @@ func iohelpLatchRules(c *core.Ctx, p *load.Prog, r1, r2, r5, r6 string) {
 		if f == nil {
 			continue
 		}
-		// the underlying call's error is bound to a variable, tested, stored and returned
-		var errObj types.Object
-		for _, s := range f.fd.Body.List {
-			as, ok := s.(*ast.AssignStmt)
-			if !ok || len(as.Rhs) != 1 {
-				continue
-			}
-			call, ok := as.Rhs[0].(*ast.CallExpr)
-			if !ok {
-				continue
-			}
-			// any call that reads from / writes to the underlying stream
-			touches := strings.Contains(f.canon(call.Fun), cfg.recv+"."+cfg.field)
-			for _, a := range call.Args {
-				if f.canon(a) == cfg.recv+"."+cfg.field {
-					touches = true
-				}
-			}
-			if !touches {
-				continue
-			}
-			if len(as.Lhs) == 2 {
-				if id, ok := as.Lhs[1].(*ast.Ident); ok && id.Name != "_" {
-					errObj = f.info.ObjectOf(id)
-				}
-			}
+		recvName := "er"
+		if cfg.fn == "ErrorWriter.Write" {
+			recvName = "ew"
 		}
-		latched := false
-		ast.Inspect(f.fd.Body, func(n ast.Node) bool {
-			ifs, ok := n.(*ast.IfStmt)
-			if !ok {
-				return true
-			}
-			b, ok := ast.Unparen(ifs.Cond).(*ast.BinaryExpr)
-			if !ok || b.Op != token.NEQ || f.canon(b.Y) != "nil" {
-				return true
-			}
-			id, ok := ast.Unparen(b.X).(*ast.Ident)
-			if !ok || errObj == nil || f.info.ObjectOf(id) != errObj {
-				return true
-			}
-			for _, s := range ifs.Body.List {
-				if as, ok := s.(*ast.AssignStmt); ok && len(as.Lhs) == 1 && len(as.Rhs) == 1 && f.canon(as.Lhs[0]) == cfg.recv+".Err" {
-					if rid, ok := as.Rhs[0].(*ast.Ident); ok && f.info.ObjectOf(rid) == errObj {
-						latched = true
-					}
-				}
-			}
-			return true
-		})
-		c.Check(r1, cfg.fn+" latches the underlying error", f.pos(), errObj != nil && latched,
-			"the error of the call on the underlying "+cfg.field+" must be stored into .Err on the err != nil path; the generated methods report only that latch")
-		// it also returns the error
-		retOK := false
-		for _, s := range f.fd.Body.List {
-			if r, ok := s.(*ast.ReturnStmt); ok && len(r.Results) == 2 {
-				if id, ok := r.Results[1].(*ast.Ident); ok && errObj != nil && f.info.ObjectOf(id) == errObj {
-					retOK = true
-				}
-			}
-		}
-		c.Check(r1, cfg.fn+" returns the underlying error", f.pos(), retOK, "")
+		lr := analyseLatch(f, recvName+"."+cfg.field, recvName+".Err")
+		c.Check(r1, cfg.fn+" latches the underlying error", f.pos(), lr.found && lr.latchedOnFailure,
+			"on some path where the call on the underlying "+cfg.field+" failed the error is not stored into .Err before the function returns ("+lr.why+"); the generated methods report only that latch")
+		c.Check(r1, cfg.fn+" returns the underlying error", f.pos(), lr.found && lr.returnsError, lr.why)
 	}
 	// R2: sole access to the underlying stream
 	allowed := map[string]map[string]bool{
@@ -1299,7 +1233,7 @@ func iohelpLatchRules(c *core.Ctx, p *load.Prog, r1, r2, r5, r6 string) {
 	}
 	c.Check(r5, "no discarded error on the underlying stream (scan complete)", "iohelp/iohelp.go", true, "")
 	c.Count("underlying_stream_accesses", nSel)
-	c.Floor("underlying_stream_accesses", 3)
+	c.Floor("underlying_stream_accesses", 2)
 	// R6: constructors share an existing wrapper
 	for _, ctor := range []struct{ fn, typ string }{{"NewErrorReader", "ErrorReader"}, {"NewErrorWriter", "ErrorWriter"}} {
 		f := ioFunc(c, p, ctor.fn)
@@ -1437,7 +1371,6 @@ func containsReturn(n ast.Node) bool {
 	return found
 }
 
-
 // freshRead describes `D := make([]byte, N); r.Read(D)` in a stream helper:
 // the buffer variable, the size expression, and whether the ErrorReader's Read
 // is called with exactly that buffer.
@@ -1457,11 +1390,30 @@ func (f *ioFn) freshRead() (buf types.Object, size ast.Expr, read bool) {
 		return true
 	})
 	if buf == nil {
+		// var X [N]byte … r.Read(X[:]): a fresh array
+		ast.Inspect(f.fd.Body, func(n ast.Node) bool {
+			if vs, ok := n.(*ast.ValueSpec); ok && len(vs.Names) == 1 && len(vs.Values) == 0 {
+				if o := f.info.ObjectOf(vs.Names[0]); o != nil {
+					if arr, isArr := o.Type().Underlying().(*types.Array); isArr && buf == nil {
+						buf = o
+						size = &ast.BasicLit{Kind: token.INT, Value: fmt.Sprint(arr.Len())}
+						f.arrLen = int(arr.Len())
+					}
+				}
+			}
+			return true
+		})
+	}
+	if buf == nil {
 		return
 	}
 	for _, call := range f.calls() {
 		if f.canon(call.Fun) == "r.Read" && len(call.Args) == 1 {
-			if id, ok := ast.Unparen(call.Args[0]).(*ast.Ident); ok && f.info.ObjectOf(id) == buf {
+			arg := ast.Unparen(call.Args[0])
+			if se, ok := arg.(*ast.SliceExpr); ok && se.Low == nil && se.High == nil {
+				arg = ast.Unparen(se.X)
+			}
+			if id, ok := arg.(*ast.Ident); ok && f.info.ObjectOf(id) == buf {
 				read = true
 			}
 		}
@@ -1497,4 +1449,378 @@ func (f *ioFn) resolvesToCall(e ast.Expr, name string) bool {
 		return defs == 1 && f.resolvesToCall(def, name)
 	}
 	return false
+}
+
+// analyseLatch walks the control-flow graph of ErrorReader.Read /
+// ErrorWriter.Write. E is the error variable bound by the call on the
+// underlying stream. Along every path the state of E (unknown / nil / non-nil)
+// is refined by the conditions passed; a return is a failure return unless its
+// error result is nil, or is E on a path where E is known to be nil.
+//
+//	latchedOnFailure: every failure return after the call is preceded by `<recv>.Err = E`;
+//	clearedOnFailure: every failure return (also one taken before the call) is
+//	                  preceded by clear(dst) or a loop zeroing dst;
+//	returnsError:     every failure return after the call yields E.
+//
+// Any shape of the code is accepted (if err != nil {…}, if err == nil {return},
+// guard clauses, switch); only what happens on the paths counts.
+type latchFacts struct {
+	found            bool
+	latchedOnFailure bool
+	clearedOnFailure bool
+	returnsError     bool
+	why              string
+}
+
+func analyseLatch(f *ioFn, stream, latch string) latchFacts {
+	res := latchFacts{}
+	info := f.info
+	// the call on the underlying stream and its error variable
+	var callStmt *ast.AssignStmt
+	var errObj types.Object
+	ast.Inspect(f.fd.Body, func(n ast.Node) bool {
+		as, ok := n.(*ast.AssignStmt)
+		if !ok || len(as.Rhs) != 1 || callStmt != nil {
+			return true
+		}
+		call, ok := as.Rhs[0].(*ast.CallExpr)
+		if !ok {
+			return true
+		}
+		touches := strings.HasPrefix(f.canon(call.Fun), stream+".")
+		for _, a := range call.Args {
+			if f.canon(a) == stream {
+				touches = true
+			}
+		}
+		if !touches || len(as.Lhs) < 1 {
+			return true
+		}
+		if id, ok := as.Lhs[len(as.Lhs)-1].(*ast.Ident); ok && id.Name != "_" {
+			if o := info.ObjectOf(id); o != nil && isErrorType(o.Type()) {
+				callStmt, errObj = as, o
+			}
+		}
+		return true
+	})
+	if callStmt == nil {
+		res.why = "no call on " + stream + " whose error is bound to a variable"
+		return res
+	}
+	res.found = true
+	// destination buffer = the []byte parameter
+	dst := ""
+	for _, fl := range f.fd.Type.Params.List {
+		for _, nm := range fl.Names {
+			if o := info.ObjectOf(nm); o != nil && o.Type().String() == "[]byte" && dst == "" {
+				dst = nm.Name
+			}
+		}
+	}
+	// statements that zero the destination
+	type span struct{ from, to token.Pos }
+	var clears []span
+	ast.Inspect(f.fd.Body, func(n ast.Node) bool {
+		switch x := n.(type) {
+		case *ast.CallExpr:
+			if wire.Canon(x.Fun) == "clear" && len(x.Args) == 1 && wire.Canon(x.Args[0]) == dst {
+				clears = append(clears, span{x.Pos(), x.End()})
+			}
+		case *ast.RangeStmt:
+			if wire.Canon(x.X) == dst {
+				zero := false
+				ast.Inspect(x.Body, func(k ast.Node) bool {
+					if as, ok := k.(*ast.AssignStmt); ok && len(as.Lhs) == 1 && len(as.Rhs) == 1 {
+						if ix, ok := as.Lhs[0].(*ast.IndexExpr); ok && wire.Canon(ix.X) == dst {
+							if tv := info.Types[as.Rhs[0]]; tv.Value != nil && tv.Value.ExactString() == "0" {
+								zero = true
+							}
+						}
+					}
+					return true
+				})
+				if zero {
+					clears = append(clears, span{x.Pos(), x.End()})
+				}
+			}
+		}
+		return true
+	})
+	inClear := func(n ast.Node) bool {
+		for _, c := range clears {
+			if c.from <= n.Pos() && n.Pos() < c.to {
+				return true
+			}
+		}
+		return false
+	}
+	// named error result (for naked returns)
+	var namedErr types.Object
+	if rs := f.fd.Type.Results; rs != nil && len(rs.List) > 0 {
+		last := rs.List[len(rs.List)-1]
+		if len(last.Names) > 0 {
+			namedErr = info.ObjectOf(last.Names[len(last.Names)-1])
+		}
+	}
+	g := buildCFG(f.p, f.p.Iohelp(), f.fd)
+	if g == nil {
+		res.found = false
+		res.why = "no control-flow graph"
+		return res
+	}
+	const (
+		sU = iota
+		sNil
+		sNon
+	)
+	type key struct {
+		b                         *gocfg.Block
+		from, st                  int
+		latched, cleared, afterCl bool
+	}
+	seen := map[key]bool{}
+	res.latchedOnFailure, res.clearedOnFailure, res.returnsError = true, true, true
+	isE := func(e ast.Expr) bool {
+		id, ok := ast.Unparen(e).(*ast.Ident)
+		return ok && info.ObjectOf(id) == errObj
+	}
+	// what a condition tells about E on its true / false edge
+	var refine func(cond ast.Expr, truth bool, st int) int
+	refine = func(cond ast.Expr, truth bool, st int) int {
+		cond = ast.Unparen(cond)
+		switch x := cond.(type) {
+		case *ast.UnaryExpr:
+			if x.Op == token.NOT {
+				return refine(x.X, !truth, st)
+			}
+		case *ast.BinaryExpr:
+			switch x.Op {
+			case token.LAND:
+				if truth {
+					return refine(x.Y, true, refine(x.X, true, st))
+				}
+			case token.LOR:
+				if !truth {
+					return refine(x.Y, false, refine(x.X, false, st))
+				}
+			case token.NEQ, token.EQL:
+				if isE(x.X) && wire.Canon(x.Y) == "nil" {
+					if (x.Op == token.NEQ) == truth {
+						return sNon
+					}
+					return sNil
+				}
+			}
+		}
+		return st
+	}
+	var walk func(b *gocfg.Block, from, st int, latched, cleared, after bool)
+	walk = func(b *gocfg.Block, from, st int, latched, cleared, after bool) {
+		k := key{b, from, st, latched, cleared, after}
+		if seen[k] {
+			return
+		}
+		seen[k] = true
+		for i := from; i < len(b.Nodes); i++ {
+			n := b.Nodes[i]
+			if inClear(n) {
+				cleared = true
+			}
+			ast.Inspect(n, func(m ast.Node) bool {
+				if call, ok := m.(*ast.CallExpr); ok && inClear(call) {
+					cleared = true
+				}
+				return true
+			})
+			if as, ok := n.(*ast.AssignStmt); ok {
+				if as == callStmt {
+					after, st, latched = true, sU, false
+					continue
+				}
+				for j, l := range as.Lhs {
+					if f.canon(l) == latch && j < len(as.Rhs) && isE(as.Rhs[j]) {
+						latched = true
+					}
+					if id, ok := l.(*ast.Ident); ok && info.ObjectOf(id) == errObj && as != callStmt {
+						st = sU // E reassigned
+					}
+				}
+			}
+			if r, ok := n.(*ast.ReturnStmt); ok {
+				failure := true
+				yieldsE := false
+				if len(r.Results) == 0 {
+					// naked return: the named error result
+					if namedErr != nil && namedErr == errObj {
+						yieldsE = true
+						failure = st != sNil
+					}
+				} else {
+					last := r.Results[len(r.Results)-1]
+					switch {
+					case wire.Canon(last) == "nil":
+						failure = false
+					case isE(last):
+						yieldsE = true
+						failure = st != sNil
+					case f.canon(last) == latch:
+						yieldsE = latched
+					}
+				}
+				if failure {
+					if after && !latched {
+						res.latchedOnFailure = false
+						res.why = "return at " + f.p.Pos(r.Pos()) + " is reached with the error not stored"
+					}
+					if !cleared {
+						res.clearedOnFailure = false
+					}
+					if after && !yieldsE {
+						res.returnsError = false
+						res.why = "return at " + f.p.Pos(r.Pos()) + " does not yield the error of the underlying call"
+					}
+				}
+				return
+			}
+		}
+		if len(b.Succs) == 2 {
+			if cond := blockCond(b); cond != nil {
+				walk(b.Succs[0], 0, refine(cond, true, st), latched, cleared, after)
+				walk(b.Succs[1], 0, refine(cond, false, st), latched, cleared, after)
+				return
+			}
+		}
+		if len(b.Succs) == 0 && after && st != sNil && !latched {
+			res.latchedOnFailure = false
+		}
+		for _, s := range b.Succs {
+			walk(s, 0, st, latched, cleared, after)
+		}
+	}
+	if len(g.g.Blocks) > 0 {
+		walk(g.g.Blocks[0], 0, sNil, false, false, false)
+	}
+	return res
+}
+
+
+// closure: f and the package-local functions it calls, transitively (helpers
+// extracted from it are part of what it does). Depth-limited, no recursion.
+func (f *ioFn) closure() []*ioFn {
+	if f.clos != nil {
+		return f.clos
+	}
+	pk := f.p.Iohelp()
+	seen := map[*ast.FuncDecl]bool{f.fd: true}
+	out := []*ioFn{f}
+	var add func(g *ioFn, depth int)
+	add = func(g *ioFn, depth int) {
+		if depth > 3 {
+			return
+		}
+		for _, call := range g.calls() {
+			cal := load.Callee(g.info, call)
+			if cal == nil || cal.Pkg() != pk.Types {
+				continue
+			}
+			fd := f.p.Decl(cal)
+			if fd == nil || fd.Body == nil || seen[fd] {
+				continue
+			}
+			seen[fd] = true
+			h := &ioFn{p: f.p, info: f.info, fd: fd, name: load.FuncName(cal)}
+			out = append(out, h)
+			add(h, depth+1)
+		}
+	}
+	add(f, 0)
+	f.clos = out
+	return out
+}
+
+// inspectAll runs ast.Inspect over f's body and over the helpers it calls.
+func (f *ioFn) inspectAll(fn func(owner *ioFn, n ast.Node) bool) {
+	for _, g := range f.closure() {
+		g := g
+		ast.Inspect(g.fd.Body, func(n ast.Node) bool { return fn(g, n) })
+	}
+}
+
+// siblingCalls: calls in f to exported package functions named prefix+stem
+// whose first argument is f's own stream parameter.
+func (f *ioFn) siblingStreamCalls(prefix, stream string) []string {
+	var out []string
+	for _, call := range f.calls() {
+		fn := wire.Canon(call.Fun)
+		if strings.HasPrefix(fn, prefix) && len(call.Args) >= 1 && f.canon(call.Args[0]) == stream {
+			out = append(out, strings.TrimPrefix(fn, prefix))
+		}
+	}
+	return out
+}
+
+// boolToByteOK: somewhere in the closure a bool is mapped to the constants 1
+// (true) and 0 (false), by stores in an if/else or by returns.
+func boolToByteOK(f *ioFn) bool {
+	ok := false
+	for _, g := range f.closure() {
+		if boolWriteOK(g) {
+			ok = true
+		}
+		list := g.fd.Body.List
+		for i, st := range list {
+			ifs, is := st.(*ast.IfStmt)
+			if !is {
+				continue
+			}
+			id, isId := ast.Unparen(ifs.Cond).(*ast.Ident)
+			if !isId {
+				continue
+			}
+			if o := g.info.ObjectOf(id); o == nil || o.Type().String() != "bool" {
+				continue
+			}
+			retConst := func(b []ast.Stmt) (string, bool) {
+				if len(b) != 1 {
+					return "", false
+				}
+				r, isR := b[0].(*ast.ReturnStmt)
+				if !isR || len(r.Results) != 1 {
+					return "", false
+				}
+				tv := g.info.Types[r.Results[0]]
+				if tv.Value == nil {
+					return "", false
+				}
+				return tv.Value.ExactString(), true
+			}
+			tv, ok1 := retConst(ifs.Body.List)
+			var ev string
+			ok2 := false
+			if eb, isB := ifs.Else.(*ast.BlockStmt); isB {
+				ev, ok2 = retConst(eb.List)
+			} else if ifs.Else == nil && i+1 < len(list) {
+				ev, ok2 = retConst(list[i+1 : i+2])
+			}
+			if ok1 && ok2 && tv == "1" && ev == "0" {
+				ok = true
+			}
+		}
+	}
+	return ok
+}
+
+
+// canonBuf spells the function's first []byte parameter "buf" whatever the
+// function is called (helpers extracted from a ...Bytes function keep the role).
+func (f *ioFn) canonBuf(e ast.Expr) string {
+	s := wire.Canon(e)
+	for _, fl := range f.fd.Type.Params.List {
+		for _, n := range fl.Names {
+			if o := f.info.ObjectOf(n); o != nil && o.Type().String() == "[]byte" {
+				return renameWords(s, map[string]string{n.Name: "buf"})
+			}
+		}
+	}
+	return s
 }
